@@ -186,6 +186,33 @@ def c15(pid, tier, seed, selftest=False):
     # are not UTF-8 in KESTREL_PASSWORD), never unlocks or locks anything
     import checks_cli
     checks_cli.tool_clause(rep, pid, tpl, seed, ["encrypt", "decrypt", "key_generate"], ["wrong_password", "non_utf8_password"], "C15_")
+    # ... for passwords of every length class at the tool (the property names no bound): generate under it, open the locked
+    # key with the specification under it, extract the public key with the tool under it
+    import cli
+    import re as _re
+    lens = [0, 1, 63, 64, 65, 128, 129, 200, 256, 1000, 1024, 1025, 4000]
+
+    def one_len(n):
+        pw = ("L%d-" % n + "p" * n)[:n]
+        with cli.Sandbox(pid, "pwlen") as sb:
+            g = cli.kestrel(["key", "generate", "--env-pass"], env={"KESTREL_PASSWORD": pw}, stdin=b"lenkey\n")
+            m = _re.search(rb"PublicKey = (\S+)\nPrivateKey = (\S+)", g.out)
+            ev = {"ev": "pwlen", "id": "pwlen%d" % n, "len": n, "gen_exit": g.rc, "spec_ok": False, "extract_exit": -1, "pub_ok": False,
+                  "stderr": g.err_text[-150:]}
+            if g.rc == 0 and m:
+                u = cli.driver_ops(pid, tpl, [{"op": "unlock", "locked": m.group(2).decode(), "password_hex": pw.encode().hex()}], seed, "pwlen")[0]
+                ev["spec_ok"] = bool(u.get("ok")) and u.get("pub_enc") == m.group(1).decode()
+                x = cli.kestrel(["key", "extract-pub", m.group(2).decode(), "--env-pass"], env={"KESTREL_PASSWORD": pw})
+                ev["extract_exit"] = x.rc
+                ev["pub_ok"] = _re.search(rb"PublicKey = (\S+)", x.out) is not None and _re.search(rb"PublicKey = (\S+)", x.out).group(1) == m.group(1)
+                ev["stderr"] += " | " + x.err_text[-100:]
+            return ev
+    import concurrent.futures as _cf
+    with _cf.ThreadPoolExecutor(max_workers=8) as ex:
+        pevs = list(ex.map(one_len, lens))
+    for e_ in pevs:
+        rep.case(e_["id"], True)
+    checks_cli.validate_events(rep, pid, "pwlen", pevs, ["C15_"])
     # ... and typed at a terminal: the key unlocks under the password it is locked under at whichever attempt it is typed
     checks_cli.tty_extension(rep, pid, tpl, seed, thorough, ["C15_"], channels=("tty", "stdin"),
                              select=lambda s_: s_["cmd"] in ("decrypt", "encrypt") and s_["exp"]["res"] == "ok")
